@@ -1,6 +1,7 @@
 """C17 — statistical transforms and combinatorics (L1 for the transforms, integers for binom_coeff);
 C20 — covariance kernels, scalar forms (L1)."""
 from vc.gen import Fn, Unit
+from vc.nra import Lemma
 
 PRE = ('fax_l0', 'fmeth', 'stdspec', 'l1')
 BC = ('l0', 'l1_arith', 'l1_fun')
@@ -185,3 +186,64 @@ binom_coeff = Fn('functions::combinatorial::binom_coeff', ret='r', level='int',
 UNITS.append(Unit('C17_binom', 'C17', [binom_coeff], spec=BINOM_SPEC, preludes=('fax_l0', 'fmeth', 'stdspec'), broadcast=('l0',), level='int',
                   notes='binom_coeff returns exactly C(n,k) (Pascal-rule definition) for every 0 <= k <= n whose value fits in 64 bits: no intermediate overflow, '
                         'the overflow guard never fires on such inputs; symmetry and the absorption identities are lemmas over the definition'))
+
+# ---------------------------------------------------------------- softmax (max-shifted): formula, positivity, sum to one, order
+SOFT_SPEC = r'''
+pub open spec fn all_finite(d: Seq<f64>) -> bool { forall|k: int| 0 <= k < d.len() ==> finite(#[trigger] d[k]) }
+/// sum over j < k of exp(x_j - m)
+pub open spec fn esum(x: Seq<f64>, m: real, k: int) -> real decreases k { if k <= 0 { 0real } else { esum(x, m, k - 1) + r_exp(rv(x[k - 1]) - m) } }
+pub proof fn lemma_esum_pos(x: Seq<f64>, m: real, k: int) requires k >= 1 ensures esum(x, m, k) > 0real decreases k
+{ ax_exp_pos(rv(x[k - 1]) - m); if k > 1 { lemma_esum_pos(x, m, k - 1); } else { assert(esum(x, m, 0) == 0real); } }
+pub proof fn lemma_exps_sum(e: Seq<f64>, x: Seq<f64>, m: f64, k: int)
+    requires 0 <= k <= e.len(), e.len() == x.len(), forall|j: int| 0 <= j < e.len() ==> #[trigger] e[j] == f_exp(f_sub(x[j], m))
+    ensures rsum(e, k) == esum(x, rv(m), k) decreases k
+{ if k > 0 { lemma_exps_sum(e, x, m, k - 1); assert(e[k - 1] == f_exp(f_sub(x[k - 1], m))); } }
+/// the quotients e_j / s sum to (sum of e_j) / s, division-free
+pub proof fn lemma_quot_sum(r: Seq<f64>, e: Seq<f64>, s: real, k: int)
+    requires 0 <= k <= r.len(), r.len() == e.len(), s != 0real, forall|j: int| 0 <= j < r.len() ==> rv(#[trigger] r[j]) == rv(e[j]) / s
+    ensures rsum(r, k) * s == rsum(e, k) decreases k
+{
+    if k > 0 { lemma_quot_sum(r, e, s, k - 1); nra_quot_step(rsum(r, k - 1), rv(r[k - 1]), rv(e[k - 1]), s, rsum(e, k - 1)); }
+    else { assert(0real * s == 0real) by(nonlinear_arith); }
+}
+/// what softmax returns: p_i = exp(x_i - m) / sum_j exp(x_j - m) with m an attained maximum of x (hence shift-invariant), positive, summing to one
+pub open spec fn is_softmax(x: Seq<f64>, p: Seq<f64>) -> bool {
+    p.len() == x.len() && (x.len() >= 1 ==> exists|m: f64| (exists|q: int| 0 <= q < x.len() && m == #[trigger] x[q]) && (forall|j: int| 0 <= j < x.len() ==> rv(#[trigger] x[j]) <= rv(m))
+        && #[trigger] soft_values(x, p, rv(m)))
+}
+pub open spec fn soft_values(x: Seq<f64>, p: Seq<f64>, m: real) -> bool {
+    esum(x, m, x.len() as int) > 0real && (forall|i: int| 0 <= i < x.len() ==> rv(#[trigger] p[i]) == r_exp(rv(x[i]) - m) / esum(x, m, x.len() as int))
+}
+'''
+SOFT_NRA = [Lemma('nra_quot_step', 'a q e s b', ['(distinct s 0)', '(= (* a s) b)', '(= q (/ e s))'], ['(= (* (+ a q) s) (+ b e))']),
+            Lemma('nra_unit', 't s', ['(distinct s 0)', '(= (* t s) s)'], ['(= t 1)']),
+            Lemma('nra_quot_pos', 'e s q', ['(> e 0)', '(> s 0)', '(= q (/ e s))'], ['(> q 0)']),
+            Lemma('nra_quot_mono', 'e1 e2 s q1 q2', ['(<= e1 e2)', '(> s 0)', '(= q1 (/ e1 s))', '(= q2 (/ e2 s))'], ['(<= q1 q2)'])]
+softmax = Fn('functions::statistical::softmax', ret='r', level='L1',
+             requires=['C17.softmax.finite:: all_finite(x@)'],
+             ensures=['C17.softmax.formula:: is_softmax(x@, r@)',
+                      'C17.softmax.positive:: forall|i: int| 0 <= i < r@.len() ==> rv(#[trigger] r@[i]) > 0real',
+                      'C17.softmax.sum1:: x@.len() >= 1 ==> rsum(r@, r@.len() as int) == 1real',
+                      'C17.softmax.order:: forall|i: int, j: int| 0 <= i < r@.len() && 0 <= j < r@.len() && rv(x@[i]) <= rv(x@[j]) ==> rv(#[trigger] r@[i]) <= rv(#[trigger] r@[j])'],
+             rewrites=[('(i - m).exp()', '(*i - m).exp()', 'R17: `&f64 - f64` is `*i - rhs`'), ('e / sum_exp', '*e / sum_exp', 'R17'),
+                       ('let sum_exp: f64 = exps.iter().sum();', 'let sum_exp: f64 = vsum(exps.clone());', 'R6c: `slice.iter().sum()` is the in-order sum of the elements, i.e. vsum of a copy (std Sum<&f64> for f64)'),
+                       ('let exps: Vec<f64> = x.iter().map(|i| (*i - m).exp()).collect();', 'let exps: Vec<f64> = x.iter().map(|i| (*i - m).exp()).collect::<Vec<f64>>();', 'R26b'),
+                       ('exps.iter().map(|e| *e / sum_exp).collect()',
+                        '({ let out_: Vec<f64> = exps.iter().map(|e| *e / sum_exp).collect::<Vec<f64>>(); proof { let n_ = x@.len() as int; let s_ = esum(x@, rv(m), n_); '
+                        'lemma_exps_sum(exps@, x@, m, n_); '
+                        'if n_ >= 1 { lemma_esum_pos(x@, rv(m), n_); assert(rv(sum_exp) == s_); '
+                        'assert forall|i: int| 0 <= i < n_ implies rv(#[trigger] out_@[i]) == rv(exps@[i]) / s_ by { } '
+                        'lemma_quot_sum(out_@, exps@, s_, n_); nra_unit(rsum(out_@, n_), s_); '
+                        'assert forall|i: int| 0 <= i < n_ implies rv(#[trigger] out_@[i]) > 0real by { ax_exp_pos(rv(x@[i]) - rv(m)); nra_quot_pos(rv(exps@[i]), s_, rv(out_@[i])); } '
+                        'assert forall|i: int, j: int| 0 <= i < n_ && 0 <= j < n_ && rv(x@[i]) <= rv(x@[j]) implies rv(#[trigger] out_@[i]) <= rv(#[trigger] out_@[j]) by '
+                        '{ ax_exp_mono(rv(x@[i]) - rv(m), rv(x@[j]) - rv(m)); nra_quot_mono(rv(exps@[i]), rv(exps@[j]), s_, rv(out_@[i]), rv(out_@[j])); } '
+                        'assert(soft_values(x@, out_@, rv(m))); } } out_ })', 'R31 + R26b: result bound to a name')],
+             closures={1: {'params': 'i: &f64', 'ret': 'o: f64', 'ensures': ['o == f_exp(f_sub(*i, m))']},
+                       2: {'params': 'e: &f64', 'ret': 'o: f64', 'requires': ['rv(sum_exp) != 0real || x@.len() == 0'], 'ensures': ['rv(sum_exp) != 0real ==> rv(o) == rv(*e) / rv(sum_exp)']}},
+             loops={1: {'invariant': ['all_finite(x@)', 'k_ == 0 ==> acc == f_neg_inf()',
+                                      'C17.softmax.max.attained:: k_ > 0 ==> exists|q: int| 0 <= q < k_ && acc == #[trigger] x@[q]',
+                                      'C17.softmax.max.bound:: forall|q: int| 0 <= q < k_ ==> rv(#[trigger] x@[q]) <= rv(acc)'],
+                        'body_start': 'assert(finite(x@[k_ as int]));'}},
+             hints=[('let sum_exp: f64 = vsum(exps.clone());', 'after', 'proof { assert(exps@.len() == x@.len()); lemma_exps_sum(exps@, x@, m, x@.len() as int); if x@.len() >= 1 { lemma_esum_pos(x@, rv(m), x@.len() as int); } }')])
+UNITS.append(Unit('C17_softmax', 'C17', [softmax], spec=SOFT_SPEC, nra=SOFT_NRA, preludes=PRE, broadcast=BC + ('l1_minmax', 'ax_f64_cloned'), level='L1',
+                  notes='softmax: p_i = exp(x_i - m) / sum_j exp(x_j - m) with m an attained maximum (hence shift-invariant), every p_i positive, the p_i sum to one, and the input order is preserved'))
